@@ -347,6 +347,18 @@ def judge_estimate(ctx, dur, div, ret):
                 key = "estimate_symbolic_duration-approximate-table-hit-does-not-convert-back"
             ctx.violation(key, f"estimate_symbolic_duration({dur}, {div}) = {ret} which is {float(val * div)} divs",
                           {"dur": int(dur), "div": int(div), "result": ret})
+        else:
+            # ... and the library's own inverse returns the numeric duration
+            import partitura.utils.music as M_
+            ctx.check()
+            try:
+                back = M_.symbolic_to_numeric_duration(dict(ret), int(div))
+            except Exception as e:  # noqa
+                back = f"{type(e).__name__}: {e}"
+            if isinstance(back, str) or abs(float(back) - int(dur)) > 1e-6:
+                ctx.violation("symbolic_to_numeric_duration-does-not-return-the-numeric-duration",
+                              f"estimate_symbolic_duration({dur}, {div}) = {ret}; symbolic_to_numeric_duration of it gives {back!r}",
+                              {"dur": int(dur), "div": int(div), "result": ret})
     elif exact in straight_table() and dur > 0:
         ctx.violation("estimate_symbolic_duration-misses-exact-value",
                       f"estimate_symbolic_duration({dur}, {div}) reports no value although {straight_table()[exact]} is exact",
